@@ -98,6 +98,14 @@ static void lm_hook(const vnacal_verif_lm_event_t *ev)
 	double rms_d = 0.0, rms_dx = 0.0, step_err = 0.0, step_scale = 0.0;
 	int dxk = -1;
 
+	/* a loop that overruns its limit is already convicted by its first
+	 * excess event: do not fill the disk while the watchdog runs */
+	if (hk.count > ev->vle_iteration_limit + 3) {
+	    ++hk.count;
+	    ++hk.total;
+	    goto out;
+	}
+
 	for (int i = 0; i < ev->vle_p_length; ++i) {
 	    double complex back = ev->vle_p_vector[i] + ev->vle_d_vector[i];
 
@@ -268,9 +276,50 @@ static int build_scenario(sc_scn_t *sc, const cfg_t *c, vt_rng_t *rng,
 	sc_line(sc, rng, 1, 2, SC_MATCH, ul, ul, SC_MATCH);
 	return 0;
     }
+    if (strcmp(c->topo, "FEW") == 0) {
+	/* through, reflect (one unknown on both ports) and a single reflect
+	 * with a second unknown: 4 + 2 + 1 equations for 7 error terms and
+	 * 2 parameters */
+	int ur = sc_unknown(sc, rng, rand_gamma(rng, 0.6, 1.0), radius, vg);
+	int us = sc_unknown(sc, rng, rand_gamma(rng, 0.3, 0.9), radius, vg);
+	int order = vt_below(rng, 3);
+
+	for (int k = 0; k < 3; ++k) {
+	    switch ((k + order) % 3) {
+	    case 0: sc_through(sc, rng, 1, 2); break;
+	    case 1: sc_double(sc, rng, 1, 2, ur, ur); break;
+	    case 2: sc_single(sc, rng, 1 + vt_below(rng, 2), us); break;
+	    }
+	}
+	return 0;
+    }
+    if (strcmp(c->topo, "PRIOR") == 0) {
+	/* exactly determined error terms; the only information about the
+	 * parameter is its correlation with a known value */
+	double complex v = rand_gamma(rng, 0.3, 0.9);
+	int k = sc_scalar(sc, v);
+	int cp = sc_corr(sc, k, pow(10.0, -1.0 - 2.0 * vt_unit(rng)));
+
+	sc_single(sc, rng, 1, SC_SHORT);
+	sc_single(sc, rng, 1, SC_OPEN);
+	sc_single(sc, rng, 1, cp);
+	return 0;
+    }
     /* the remaining topologies stand on the known base */
     base_known(sc, rng);
-    if (strcmp(c->topo, "REFL") == 0) {
+    if (strcmp(c->topo, "WEAK") == 0) {
+	/* as REFL, but every receiver reads 1e-100 times the signal */
+	for (int k = 0; k < sc->nf; ++k) {
+	    double complex *el = (double complex *)sc->e[k].el;
+	    double complex *er = (double complex *)sc->e[k].er;
+
+	    for (size_t i = 0; i < sizeof(sc->e[k].el) / sizeof(*el); ++i)
+		el[i] *= 1e-100;
+	    for (size_t i = 0; i < sizeof(sc->e[k].er) / sizeof(*er); ++i)
+		er[i] *= 1e-100;
+	}
+    }
+    if (strcmp(c->topo, "REFL") == 0 || strcmp(c->topo, "WEAK") == 0) {
 	/* unknown reflects paired with known ones (1 port: alone) */
 	for (int i = 0; i < c->nu; ++i) {
 	    u[i] = sc_unknown(sc, rng, rand_gamma(rng, 0.3, 0.9), radius, vg);
